@@ -353,15 +353,29 @@ def c08(tokens, norm_src: str) -> str | None:
                 src = parent.content
                 # the span's text must be some stretch between two backtick strings of that length
                 ok = False
-                for mm in re.finditer(r"(?<!`)" + re.escape(m) + r"(?!`)", src):
-                    st = mm.end()
-                    en = re.search(r"(?<!`)" + re.escape(m) + r"(?!`)", src[st:])
-                    if not en:
-                        continue
-                    raw = src[st:st + en.start()].replace("\n", " ")
-                    exp = raw[1:-1] if raw.startswith(" ") and raw.endswith(" ") and raw.strip(" ") else raw
-                    if exp == c.content:
-                        ok = True
+                # openers: maximal backtick runs, shortened by one when an odd number of backslashes escapes the
+                # first backtick; closers: raw maximal runs (no escapes inside a code span)
+                runs = [(mm.start(), mm.end()) for mm in re.finditer(r"`+", src)]
+                openers = []
+                for a, b in runs:
+                    k = a
+                    while k > 0 and src[k - 1] == "\\":
+                        k -= 1
+                    if (a - k) % 2:
+                        a += 1
+                    if b - a == len(m):
+                        openers.append(b)
+                closers = [a for a, b in runs if b - a == len(m)]
+                for st in openers:
+                    for a in closers:
+                        if a < st:
+                            continue
+                        raw = src[st:a].replace("\n", " ")
+                        exp = raw[1:-1] if raw.startswith(" ") and raw.endswith(" ") and raw.strip(" ") else raw
+                        if exp == c.content:
+                            ok = True
+                            break
+                    if ok:
                         break
                 if not ok:
                     return f"code_inline content {c.content!r} (markup {m!r}) is not the text between two such backtick strings in {src!r}"
